@@ -35,9 +35,9 @@ DROPPED = [
 ]
 
 FRAGS = [  # (ghost name, notation)
-    ("True", "1"), ("False", "0"), ("PkK", "pk_k"), ("PkH", "pk_h"), ("RawPkH", "expr_raw_pk_h"), ("After", "after"), ("Older", "older"),
+    ("True", "1"), ("False", "0"), ("PkK", "pk_k"), ("PkH", "pk_h"), ("RawPkH", "expr_raw_pkh"), ("After", "after"), ("Older", "older"),
     ("Sha256", "sha256"), ("Hash256", "hash256"), ("Ripemd160", "ripemd160"), ("Hash160", "hash160"),
-    ("Alt", "a"), ("Swap", "s"), ("Pk", "pk"), ("Pkh", "pkh"), ("ExprRawPkh", "expr_raw_pkh"), ("Check", "c"), ("DupIf", "d"), ("Verify", "v"),
+    ("Alt", "a"), ("Swap", "s"), ("Pk", "pk"), ("Pkh", "pkh"), ("Check", "c"), ("DupIf", "d"), ("Verify", "v"),
     ("NonZero", "j"), ("ZeroNotEqual", "n"), ("T", "t"), ("AndV", "and_v"), ("AndN", "and_n"), ("AndB", "and_b"), ("AndOr", "andor"),
     ("OrB", "or_b"), ("OrD", "or_d"), ("OrC", "or_c"), ("U", "u"), ("L", "l"), ("OrI", "or_i"),
     ("Thresh", "thresh"), ("Multi", "multi"), ("SortedMulti", "sortedmulti"), ("MultiA", "multi_a"), ("SortedMultiA", "sortedmulti_a"),
@@ -88,7 +88,7 @@ spec fn frag<Pk: MiniscriptKey, Ctx: ScriptContext>(t: Terminal<Pk, Ctx>) -> Fra
         Terminal::Sha256(..) => Frag::Sha256, Terminal::Hash256(..) => Frag::Hash256,
         Terminal::Ripemd160(..) => Frag::Ripemd160, Terminal::Hash160(..) => Frag::Hash160,
         Terminal::Alt(..) => Frag::Alt, Terminal::Swap(..) => Frag::Swap,
-        Terminal::Check(x) => if x.node is PkK { Frag::Pk } else if x.node is PkH { Frag::Pkh } else if x.node is RawPkH { Frag::ExprRawPkh } else { Frag::Check },
+        Terminal::Check(x) => if x.node is PkK { Frag::Pk } else if x.node is PkH { Frag::Pkh } else { Frag::Check },
         Terminal::DupIf(..) => Frag::DupIf, Terminal::Verify(..) => Frag::Verify,
         Terminal::NonZero(..) => Frag::NonZero, Terminal::ZeroNotEqual(..) => Frag::ZeroNotEqual,
         Terminal::AndV(_, y) => if y.node is True { Frag::T } else { Frag::AndV },
@@ -117,10 +117,10 @@ spec fn display_children<Pk: MiniscriptKey, Ctx: ScriptContext>(t: Terminal<Pk, 
         Terminal::Hash256(h) => seq![ADisp::Hash256(h)],
         Terminal::Ripemd160(h) => seq![ADisp::Ripemd160(h)],
         Terminal::Hash160(h) => seq![ADisp::Hash160(h)],
-        // pk(KEY) / pkh(KEY) / expr_raw_pkh(HASH) show the key of the wrapped pk_k / pk_h directly
+        // pk(KEY) / pkh(KEY) show the key of the wrapped pk_k / pk_h directly (a raw key hash has no such sugar: expr_raw_pkh(HASH) is
+        // the bare fragment, c: over it is an ordinary wrapper)
         Terminal::Check(x) => match x.node {
             Terminal::PkK(k) | Terminal::PkH(k) => seq![ADisp::Key(k)],
-            Terminal::RawPkH(h) => seq![ADisp::RawKeyHash(h)],
             _ => seq![ADisp::Node(x.node)],
         },
         Terminal::Alt(x) | Terminal::Swap(x) | Terminal::DupIf(x) | Terminal::Verify(x) | Terminal::NonZero(x)
